@@ -66,7 +66,7 @@ def c03(tier):
 
 
 def c05(tier):
-    family = fam(['failing', 'fail_diamond']) + [p for p in programs.parallel_family() if p['name'] == 'par_fail']
+    family = fam(['failing', 'fail_diamond', 'fail_memo']) + [p for p in programs.parallel_family() if p['name'] == 'par_fail']
     v, cov, te, wall = syscheck.run_family(
         'C05', tier, family, ['FailPropagates', 'NoCleanOverFailed', 'NoDupRun', 'NoUnderBuild'], [],
         {'rc', 'ran', 'row.failed', 'row.gen', 'file'},
@@ -268,6 +268,12 @@ def jobs_check(pid, tier, focus, invariants, note):
     for a in ('SelectA', 'HandleFdA', 'WaitAllA', 'EnsureA', 'P2ReleaseA', 'P2LockedA', 'ReturnA', 'HandleA'):
         if cov['action_coverage'].get(a, 0) == 0:
             tool.append('coverage: action %s never taken' % a)
+    if pid == 'C08':
+        ind, t2 = jobcheck.apalache_part(d, verdict, pid)
+        cov['inductive_invariant_apalache'] = ind
+        cov['obligations'] = 2
+        cov['discharged'] = sum(1 for k in ('base', 'step') if ind.get(k, {}).get('outcome') == 'NoError')
+        tool += t2
     real = jobcheck.real_part(tier, pid, focus, verdict)
     cov.update(real)
     cov['samples'] = [real.pop('sample_real')] if real.get('sample_real') else [{'note': 'no clean run'}]
